@@ -34,7 +34,7 @@ def plan(tier, seed):
 
 
 def closure_market(rng, mid, shape, t0, event_id="30000001"):
-    d = G.Director(rng, mid, {"close": False, "p_inplay": 0.3, "n_pre": (3, 8), "p_removal": 0.1, "n_runners": (2, 4)}, t0=t0, event_id=event_id)
+    d = G.Director(rng, mid, {"close": False, "p_inplay": 0.3, "n_pre": (3, 8), "p_removal": 0.1, "n_runners": (2, 4), "handicaps": "lines" if rng.random() < 0.25 else False, "p_bsp": 0.5}, t0=t0, event_id=event_id)
     if shape == "first_closed":
         mf = d.mf
         d.t = t0
